@@ -82,13 +82,23 @@ Definition good (n : string) (o target : option table_def) : Prop :=
   | Some tn => exists t', o = Some t' /\ t_name t' = n /\ normalize t' = Ok t' /\ table_equiv t' tn
   end.
 
+(* a per-table condition p is sound when the group diff computes for a surviving table that satisfies
+   it, applied in any order, ends in a fix-point equivalent to the target *)
+Definition group_sound (p : table_def -> table_def -> bool) : Prop :=
+  forall b tn L,
+    normalize b = Ok b -> p b tn = true -> Permutation L (table_group (t_name b) b tn) ->
+    exists b', proj_all (Some b) L = Ok (Some b') /\ t_name b' = t_name b
+               /\ normalize b' = Ok b' /\ table_equiv b' tn.
+
 Section PerTable.
+  Variable p : table_def -> table_def -> bool.
+  Hypothesis p_sound : group_sound p.
   Variables (B T Tn : schema) (acts : list action) (sorted : list table_def).
   Hypothesis HndB : NoDup (map t_name B).
   Hypothesis HfixB : forall t, In t B -> normalize t = Ok t.
   Hypothesis HndT : NoDup (map t_name T).
   Hypothesis HTn : normalize_all T = Ok Tn.
-  Hypothesis Hcommon : common_tables attrs_only B T = true.
+  Hypothesis Hcommon : common_tables p B T = true.
   Hypothesis Htopo : topo_sort (diff_new (name_map B) (name_map Tn)) = TopoOk sorted.
   Hypothesis Hperm : Permutation acts
     (diff_deletes (name_map B) (name_map Tn) ++ diff_updates (name_map B) (name_map Tn)
@@ -164,11 +174,11 @@ Section PerTable.
       + (* surviving table: its group, in some order *)
         cbn [app] in P. rewrite app_nil_r in P.
         destruct (find_t_some _ _ _ EB) as [HbB Hbn].
-        assert (Ha : attrs_only b tn = true).
+        assert (Ha : p b tn = true).
         { unfold common_tables in Hcommon. rewrite forallb_forall in Hcommon.
           specialize (Hcommon t HtT). now rewrite Htn, EB, Ent in Hcommon. }
         rewrite <- Hbn in P.
-        destruct (attrs_fold b tn _ (HfixB b HbB) Ha P) as [b' [H1 [H2 [H3 H4]]]].
+        destruct (p_sound b tn _ (HfixB b HbB) Ha P) as [b' [H1 [H2 [H3 H4]]]].
         rewrite Hbn in H1. exists (Some b'). split; [exact H1|]. exists b'.
         split; [reflexivity|split; [congruence|split; assumption]].
       + (* created table *)
@@ -192,20 +202,21 @@ Section PerTable.
   Qed.
 End PerTable.
 
-(* ---------- the step theorem ---------- *)
-Theorem c01_step_sound B T : c01_step B T = true ->
+(* ---------- the step theorem, for any sound per-table condition ---------- *)
+Theorem gen_step_sound p : group_sound p -> forall B T,
+  baseline_ok B = true -> c01_models p B T = true ->
   exists acts B',
     diff_actions B T = Ok acts /\ apply_all B acts = Ok B' /\ baseline_ok B' = true
     /\ diff_actions B' T = Ok [] /\ diff_actions T B' = Ok [].
 Proof.
-  unfold c01_step. rewrite !andb_true_iff. intros [[[HB HT] Hd] Hc].
+  intros Hp B T HB Hm. unfold c01_models in Hm. rewrite !andb_true_iff in Hm. destruct Hm as [[HT Hd] Hc].
   apply baseline_ok_spec in HB. destruct HB as [HndB HfixB]. apply nodup_str_NoDup in HT.
   unfold diff_ok in Hd. destruct (diff_actions B T) as [acts|e] eqn:Ed; [|discriminate]. clear Hd.
   exists acts.
   pose proof Ed as Ec. rewrite diff_actions_core, (normalize_all_fix B HfixB) in Ec.
   destruct (normalize_all T) as [Tn|e] eqn:ETn; [|discriminate].
   destruct (diff_core_perm _ _ _ _ Ec) as [sorted [Htopo Hperm]].
-  pose proof (per_table B T Tn acts sorted HndB HfixB HT ETn Hc Htopo Hperm) as Hpt.
+  pose proof (per_table p Hp B T Tn acts sorted HndB HfixB HT ETn Hc Htopo Hperm) as Hpt.
   set (r := fun n => match proj_all (find_t n B) (filter (on_table n) acts) with Ok o => o | Err _ => None end).
   destruct (apply_all_proj acts B r HndB) as [B' [Happ [Hfind HndB']]].
   { intros a Ha. eapply diff_blocks_single. eapply Permutation_in; [exact Hperm|exact Ha]. }
@@ -228,6 +239,21 @@ Proof.
   - apply baseline_ok_spec. auto.
   - now apply diff_equiv_empty.
   - now apply diff_equiv_empty, schema_equiv_sym.
+Qed.
+
+Lemma attrs_only_sound : group_sound attrs_only.
+Proof. exact attrs_fold. Qed.
+
+Lemma c01_step_split B T : c01_step B T = (baseline_ok B && c01_models attrs_only B T)%bool.
+Proof. unfold c01_step, c01_models. now rewrite !andb_assoc. Qed.
+
+Theorem c01_step_sound B T : c01_step B T = true ->
+  exists acts B',
+    diff_actions B T = Ok acts /\ apply_all B acts = Ok B' /\ baseline_ok B' = true
+    /\ diff_actions B' T = Ok [] /\ diff_actions T B' = Ok [].
+Proof.
+  rewrite c01_step_split, andb_true_iff. intros [HB Hm].
+  exact (gen_step_sound attrs_only attrs_only_sound B T HB Hm).
 Qed.
 
 Lemma closes_gap_unfold B T acts B' :
